@@ -1,5 +1,5 @@
 #!/usr/bin/env bash
-D=$(dirname $BASH_SOURCE)
+D=$(dirname "$BASH_SOURCE")
 if [ -z "$OUT" ]; then
-  OUT=$D/bin${S}
+  OUT="$D/bin${S}"
 fi
